@@ -7,7 +7,7 @@ from typing import Any
 from sa.kern import make_evaluator, py_calls
 from sa.report import Ctx
 from sa.srcmodel import FuncInfo, func_body
-from sa.symterm import Env, Evaluator, Poly, Unsupported, _eq, show
+from sa.symterm import Env, Evaluator, Poly, Unsupported, show
 
 INST = "moptipyapps.binpacking2d.instance"
 
@@ -17,18 +17,20 @@ def is_exact_ceil(t: Poly, a: Poly, b: Poly) -> bool:
     q = Poly.atom(("app", "floordiv", (a, b)))
     one, zero = Poly.const(1), Poly.const(0)
     r = Poly.atom(("app", "mod", (a, b)))
-    at = t.as_atom()
-    if at is not None and at[0] == "ite":
-        c, x, y = at[1], at[2], at[3]
-        conds_up = [("lt", q * b, a), ("not", _eq(q * b, a)),
-                    ("not", _eq(r, zero)), ("lt", zero, r)]
-        conds_eq = [_eq(q * b, a), ("le", a, q * b), _eq(r, zero),
-                    ("le", r, zero)]
-        if x == q + one and y == q and c in conds_up:
-            return True
-        if x == q and y == q + one and c in conds_eq:
-            return True
-        return False
+    if any(x[0] == "ite" for x in t.atoms()):
+        # conditional forms: compared on every outcome of their tests with
+        # q + (1 if q*b < a else 0), where q = a // b satisfies
+        # q*b <= a <= q*b + b - 1 and a % b = a - q*b
+        from sa.casesplit import Splitter, equivalent
+        from sa.symterm import all_atoms, ite, map_atom
+        sub = {r.as_atom(): a - q * b}
+        t2 = map_atom(("eq", t, zero), lambda p: p.subst(sub))[1] \
+            if r.as_atom() in all_atoms(t) else t
+        sp = Splitter()
+        facts = sp.facts_of(("le", q * b, a), True)[0] + sp.facts_of(
+            ("le", a, q * b + b - one), True)[0]
+        del sp
+        return equivalent(t2, ite(("lt", q * b, a), q + one, q), facts)[0]
     if t == -Poly.atom(("app", "floordiv", (-a, b))):
         return True
     if t == Poly.atom(("app", "floordiv", (a + b - one, b))):
@@ -81,86 +83,23 @@ def run(ctx: Ctx) -> None:
              "area; the stored bound is max(damv, geo); consumers read it")
     repo = ctx.repo
     new = repo.func(INST, "Instance.__new__")
-    ev = make_evaluator(repo, new, extra_call=_hook)
-    ev.int_transparent = True
-    # ---- the area accumulator
-    loop = None
-    acc = None
-    for s in func_body(new):
-        if isinstance(s, ast.For):
-            for b in ast.walk(s):
-                if isinstance(b, ast.AugAssign) and isinstance(
-                        b.op, ast.Add) and isinstance(
-                        b.target, ast.Name) and isinstance(
-                        b.value, ast.BinOp) and b.target.id == "item_area":
-                    loop, acc = s, b
-    ctx.need(acc is not None, "Instance.__new__: item_area accumulation")
-    names = sorted({n.id for n in ast.walk(acc.value)
-                    if isinstance(n, ast.Name)})
-    unpack = None
-    for b in loop.body:
-        if isinstance(b, ast.Assign) and isinstance(
-                b.targets[0], ast.Tuple):
-            unpack = [t.id for t in b.targets[0].elts
-                      if isinstance(t, ast.Name)]
-    prod_ok = False
-    try:
-        env = Env()
-        for nm in names:
-            env.vars[nm] = Poly.var(nm)
-        v = ev.num(env, acc.value)
-        want = Poly.const(1)
-        for nm in names:
-            want = want * Poly.var(nm)
-        prod_ok = v == want and len(names) == 3
-    except Unsupported:
-        prod_ok = False
-    early = []
-    for b in loop.body:
-        if b is acc or acc in list(ast.walk(b)):
-            break
-        early += [n for n in ast.walk(b)
-                  if isinstance(n, (ast.Continue, ast.Break))]
-    it = ast.unparse(loop.iter).replace(" ", "")
-    top_level = any(b is acc for b in loop.body)
-    ok_area = prod_ok and unpack is not None and sorted(unpack) == names \
-        and not early and it == "range(n_different_items)" and top_level
-    ctx.ob("D3.1", new, acc, ok_area,
-           f"item_area += {' * '.join(names)} for every row of the matrix "
-           "(width, height and multiplicity of the same row), "
-           "unconditionally" if ok_area else
+    cm = _ConstructorModel(ctx, new)
+    ok_area, why_area = cm.accumulates(cm.area_var, None)
+    ctx.ob("D3.1", new, cm.node_of(cm.area_var), ok_area,
+           "the total item area adds width * height * repetitions of the "
+           "same row for every row of the matrix, unconditionally, starting "
+           "from 0" if ok_area else
            "the total item area is not the sum of width*height*repetitions "
-           f"over all rows (names {names}, row fields {unpack}, loop {it}, "
-           f"early exits {len(early)})", construct="total item area")
+           f"over all rows: {why_area}", construct="total item area")
     # ---- the ceiling
-    env = Env()
-    env.vars["item_area"] = Poly.var("item_area")
-    for nm in ("bin_width", "bin_height"):
-        env.vars[nm] = Poly.var(nm)
-    started = False
-    geo = None
-    for s in func_body(new):
-        if isinstance(s, (ast.Assign, ast.AnnAssign)) and isinstance(
-                s.targets[0] if isinstance(s, ast.Assign) else s.target,
-                ast.Name) and (s.targets[0] if isinstance(s, ast.Assign)
-                               else s.target).id == "bin_area":
-            started = True
-        if not started:
-            continue
-        if isinstance(s, (ast.Assign, ast.AnnAssign, ast.AugAssign,
-                          ast.If)):
-            try:
-                env = ev.stmt(env, s)
-            except Unsupported:
-                pass
-        if "lower_bound_damv" in ast.unparse(s):
-            break
-    geo = env.vars.get("lower_bound_geo")
-    A = Poly.var("item_area")
-    B = Poly.var("bin_width") * Poly.var("bin_height")
-    ok_c = isinstance(geo, Poly) and is_exact_ceil(geo, A, B)
+    A = cm.post_symbol(cm.area_var)
+    p = new.params
+    B = Poly.var(p[2]) * Poly.var(p[3])
+    geo, damv = cm.bound_parts(A)
+    ok_c = isinstance(geo, Poly) and A is not None and is_exact_ceil(
+        geo, A, B)
     ctx.ob("D3.1", new, new.node, ok_c,
-           f"lower_bound_geo = {show(geo)[:160] if isinstance(geo, Poly) else geo}"
+           f"geometric bound = {show(geo)[:160] if isinstance(geo, Poly) else geo}"
            + (": an exact integer ceiling of item_area / (W*H)" if ok_c else
               ": NOT an exact ceiling of item_area / (bin_width * "
               "bin_height) in any accepted idiom"),
@@ -171,19 +110,12 @@ def run(ctx: Ctx) -> None:
            "no float division in the constructor's bound computation",
            construct="integer arithmetic", nontrivial=False)
     # ---- combined bound
-    okm = False
-    node: ast.AST = new.node
-    for n in ast.walk(new.node):
-        if isinstance(n, ast.Assign) and isinstance(
-                n.targets[0], ast.Attribute) and \
-                n.targets[0].attr == "lower_bound_bins":
-            node = n
-            v = n.value
-            okm = isinstance(v, ast.Call) and ast.unparse(
-                v.func) == "max" and {ast.unparse(a) for a in v.args} == {
-                "lower_bound_damv", "lower_bound_geo"}
-    ctx.ob("D3.1", new, node, okm,
-           "lower_bound_bins = max(lower_bound_damv, lower_bound_geo)",
+    okm = geo is not None and damv is not None and cm.is_damv(damv)
+    ctx.ob("D3.1", new, new.node, okm,
+           "lower_bound_bins = max(lower_bound_damv, lower_bound_geo)"
+           if okm else "lower_bound_bins is "
+           f"{cm.sh(cm.out.vars.get(cm.objn + '.lower_bound_bins') if cm.objn else None)[:200]}"
+           ", not the maximum of the geometric and the DAMV bound",
            construct="combined bound")
     # ---- consumers
     bc = repo.func("moptipyapps.binpacking2d.objectives.bin_count",
@@ -236,92 +168,243 @@ def run(ctx: Ctx) -> None:
     _constructor_stores(ctx)
 
 
+class _ConstructorModel:
+    """Instance.__new__ normalised: values of the attributes it stores, the
+    accumulations of its row loop (guard walk with watched assignments)."""
+
+    def __init__(self, ctx: Ctx, new: FuncInfo) -> None:
+        from sa.guards import GuardWalk
+        self.ctx = ctx
+        self.new = new
+        repo = ctx.repo
+        self.ev = make_evaluator(repo, new, extra_call=_hook)
+        self.ev.int_transparent = True
+        body = func_body(new)
+        in_loops = {n.id for lp in body if isinstance(lp, ast.For)
+                    for n in ast.walk(lp) if isinstance(n, ast.Name)
+                    and isinstance(n.ctx, ast.Store)}
+        self.gw = GuardWalk(self.ev, None, watch=set(in_loops))
+        self.out = self.gw.walk(Env(), body)
+        rets = [r for r in ast.walk(new.node) if isinstance(r, ast.Return)]
+        self.objn = rets[0].value.id if len(rets) == 1 and isinstance(
+            rets[0].value, ast.Name) else None
+        self.im = repo.module(INST)
+        self.area_var = self._var_of("total_item_area")
+        self.count_var = self._var_of("n_items")
+
+    @staticmethod
+    def sh(v: Any) -> str:
+        return show(v) if isinstance(v, Poly) else repr(v)
+
+    def attr(self, name: str) -> Any:
+        return self.out.vars.get(f"{self.objn}.{name}") if self.objn \
+            else None
+
+    def _var_of(self, attr: str) -> str | None:
+        """The local whose final value the attribute receives."""
+        v = self.attr(attr)
+        at = v.as_atom() if isinstance(v, Poly) else None
+        if at is not None and at[0] == "var" and "#" in at[1]:
+            return at[1].split("#")[0]
+        return None
+
+    def post_symbol(self, var: str | None) -> Poly | None:
+        v = self.out.vars.get(var) if var else None
+        return v if isinstance(v, Poly) else None
+
+    def node_of(self, var: str | None) -> ast.AST:
+        for m in self.gw.marks:
+            if m.name == var and m.loops:
+                return m.node
+        return self.new.node
+
+    def accumulates(self, var: str | None, col: int | None) \
+            -> tuple[bool, str]:
+        """Is `var` 0 before the row loop and increased, for every row that
+        is not rejected, by w*h*r (col None) or by the cell `col`?"""
+        if var is None:
+            return False, "the attribute does not receive a loop variable"
+        repo = self.ctx.repo
+        new = self.new
+        marks = [m for m in self.gw.marks if m.name == var]
+        init = [m for m in marks if not m.loops]
+        inner = [m for m in marks if m.loops]
+        if len(init) != 1 or init[0].value != Poly.const(0):
+            return False, f"`{var}` does not start at 0"
+        if len(inner) != 1 or len(inner[0].loops) != 1:
+            return False, (f"`{var}` is assigned {len(inner)} times inside "
+                           "the loops")
+        mk = inner[0]
+        loop = mk.loops[0]
+        lenv = self.gw.loop_envs[id(loop)]
+        if not (isinstance(loop, ast.For) and isinstance(
+                loop.target, ast.Name) and isinstance(
+                loop.iter, ast.Call) and isinstance(
+                loop.iter.func, ast.Name) and loop.iter.func.id == "range"
+                and len(loop.iter.args) == 1 and not loop.orelse):
+            return False, "the rows are not enumerated by range(n)"
+        mat = new.params[4]
+        try:
+            n_rows = self.ev.num(lenv, loop.iter.args[0])
+        except Unsupported:
+            return False, "loop bound not normalised"
+        if n_rows != Poly.atom(("app", "len", (Poly.var(mat),))):
+            return False, (f"the loop runs over {show(n_rows)} rows, not "
+                           "over all rows of the matrix")
+        before = lenv.vars.get(var)
+        if not isinstance(before, Poly) or not isinstance(mk.value, Poly):
+            return False, "accumulated value not normalised"
+        i = Poly.var(loop.target.id)
+        row = ("cell", mat, (i,))
+        from sa.symterm import show_atom
+
+        def cell(k: int) -> Poly:
+            return Poly.atom(("cell", show_atom(row), (Poly.const(k),)))
+        cols = {nm: repo.const(self.im, ast.Name(id=nm)) for nm in (
+            "IDX_WIDTH", "IDX_HEIGHT", "IDX_REPETITION")}
+        if sorted(cols.values()) != [0, 1, 2]:
+            return False, "instance column constants"
+        want = cell(0) * cell(1) * cell(2) if col is None else cell(col)
+        if mk.value - before != want:
+            return False, (f"each row adds {show(mk.value - before)[:120]} "
+                           f"instead of {show(want)}")
+        # reached for every row that is not rejected: no continue / break /
+        # return before it, and not under a condition of its own
+        early = [e for e in self.gw.exits if loop in e.loops and e.kind in (
+            "continue", "break", "return") and getattr(
+            e.node, "lineno", 0) < getattr(mk.node, "lineno", 0)]
+        if early:
+            return False, "a row can be skipped before it is counted"
+        if not any(b_ is mk.node for b_ in loop.body):
+            return False, "the accumulation is conditional"
+        return True, ""
+
+    def bound_parts(self, A: Poly | None) -> tuple[Any, Any]:
+        """(geometric part, other part) of obj.lower_bound_bins = max(..)."""
+        v = self.attr("lower_bound_bins")
+        at = v.as_atom() if isinstance(v, Poly) else None
+        if at is None or at[0] != "app" or at[1] != "max" or len(
+                at[2]) != 2 or A is None:
+            return None, None
+        from sa.symterm import all_atoms
+        x, y = at[2]
+        ax = A.as_atom() in all_atoms(x)
+        ay = A.as_atom() in all_atoms(y)
+        if ax and not ay:
+            return x, y
+        if ay and not ax:
+            return y, x
+        return None, None
+
+    def is_damv(self, v: Any) -> bool:
+        """`v` is the value of a local assigned from
+        _lower_bound_damv(bin_width, bin_height, <the instance>)."""
+        from sa.srcmodel import inline_locals
+        at = v.as_atom() if isinstance(v, Poly) else None
+        if at is None or at[0] != "var" or "#" not in at[1]:
+            return False
+        var = at[1].split("#")[0]
+        new = self.new
+        p = new.params
+        defs = [s_ for s_ in ast.walk(new.node) if isinstance(
+            s_, (ast.Assign, ast.AnnAssign)) and s_.value is not None and any(
+            isinstance(t, ast.Name) and t.id == var for t in (
+                s_.targets if isinstance(s_, ast.Assign) else [s_.target]))]
+        if len(defs) != 1:
+            return False
+        val = defs[0].value
+        while isinstance(val, ast.Call) and isinstance(
+                val.func, ast.Name) and val.func.id in (
+                "check_int_range", "int") and val.args:
+            val = val.args[0]
+        val = inline_locals(new.node, val, keep={self.objn or ""})
+        return isinstance(val, ast.Call) and isinstance(
+            val.func, ast.Name) and val.func.id == "_lower_bound_damv" \
+            and not val.keywords and [ast.unparse(a_) for a_ in val.args] \
+            == [p[2], p[3], self.objn]
+
+
 def _constructor_stores(ctx: Ctx) -> None:
     """Instance.__new__ keeps the data and the derived attributes."""
     repo = ctx.repo
     new = repo.func(INST, "Instance.__new__")
+    cm = _ConstructorModel(ctx, new)
     body = func_body(new)
 
     def src(n: ast.AST) -> str:
         return ast.unparse(n).replace(" ", "")
     problems: list[str] = []
-    objn = None
-    for s in body:
-        if isinstance(s, (ast.Assign, ast.AnnAssign)) and isinstance(
-                s.value, ast.Call) and src(s.value.func) in (
-                "super().__new__", "np.ndarray.__new__"):
-            tg = s.targets[0] if isinstance(s, ast.Assign) else s.target
-            objn = tg.id if isinstance(tg, ast.Name) else None
-    rets = [r for r in ast.walk(new.node) if isinstance(r, ast.Return)]
-    if objn is None or len(rets) != 1 or src(rets[0].value) != objn:
+    objn = cm.objn
+    alloc = [s_ for s_ in body if isinstance(
+        s_, (ast.Assign, ast.AnnAssign)) and isinstance(
+        s_.value, ast.Call) and src(s_.value.func) in (
+        "super().__new__", "np.ndarray.__new__") and src(
+        s_.targets[0] if isinstance(s_, ast.Assign) else s_.target) == objn]
+    if objn is None or len(alloc) != 1:
         ctx.ob("D3.3", new, new.node, False,
                "the constructor does not return the array it allocates",
                construct="constructor stores")
         return
-    attrs: dict[str, str] = {}
-    for s in body:
-        if isinstance(s, ast.Assign) and isinstance(
-                s.targets[0], ast.Attribute) and src(
-                s.targets[0].value) == objn:
-            v = s.value
-            while isinstance(v, ast.Call) and src(v.func) in (
-                    "check_int_range", "int") and v.args:
-                v = v.args[0]
-            attrs[s.targets[0].attr] = src(v)
     p = new.params
-    want = {"name": "use_name", "n_different_items": "n_different_items",
-            "n_items": "n_items", "bin_height": p[3], "bin_width": p[2],
-            "total_item_area": "item_area"}
-    for a, v in want.items():
-        if attrs.get(a) != v:
-            problems.append(f"`{objn}.{a}` is "
-                            + (f"set to `{attrs[a]}`" if a in attrs
-                               else "never set") + f", expected `{v}`")
+    mat = p[4]
+    want = {"n_different_items": Poly.atom(("app", "len", (Poly.var(mat),))),
+            "bin_height": Poly.var(p[3]), "bin_width": Poly.var(p[2])}
+    for a_, v in want.items():
+        got = cm.attr(a_)
+        if got != v:
+            problems.append(f"`{objn}.{a_}` is "
+                            + (f"set to `{cm.sh(got)}`" if got is not None
+                               else "never set") + f", expected `{show(v)}`")
+    if cm.area_var is None:
+        problems.append(f"`{objn}.total_item_area` does not receive the "
+                        "accumulated area")
+    # the name: the sanitised name parameter
+    nv = cm._var_of("name")
+    name_ok = False
+    for s_ in body:
+        if isinstance(s_, (ast.Assign, ast.AnnAssign)) and s_.value is not \
+                None and src(s_.targets[0] if isinstance(s_, ast.Assign)
+                             else s_.target) == nv:
+            name_ok = src(s_.value) == f"sanitize_name({p[1]})"
+    if cm.attr("name") == Poly.var(p[1]):
+        name_ok = True
+    if not name_ok:
+        problems.append(f"`{objn}.name` is not the (sanitised) name")
     # the rows are copied into the array
-    copies = [s for s in ast.walk(new.node) if isinstance(s, ast.Assign)
-              and isinstance(s.targets[0], ast.Subscript) and src(
-                  s.targets[0].value) == objn]
+    copies = [s_ for s_ in ast.walk(new.node) if isinstance(s_, ast.Assign)
+              and isinstance(s_.targets[0], ast.Subscript) and src(
+                  s_.targets[0].value) == objn]
     okc = False
     for c in copies:
         t = src(c.targets[0])
         lp = next((lp for lp in ast.walk(new.node) if isinstance(lp, ast.For)
                    and c in lp.body), None)
-        if lp is not None and isinstance(lp.target, ast.Name):
+        if lp is not None and isinstance(lp.target, ast.Name) and \
+                isinstance(lp.iter, ast.Call) and src(
+                lp.iter.func) == "range" and len(lp.iter.args) == 1:
             i = lp.target.id
+            try:
+                n_rows = cm.ev.num(cm.gw.loop_envs[id(lp)], lp.iter.args[0])
+            except (Unsupported, KeyError):
+                n_rows = None
             okc = okc or (t == f"{objn}[{i},:]" and src(c.value) ==
-                          f"{p[4]}[{i}]" and src(lp.iter) ==
-                          "range(n_different_items)")
+                          f"{mat}[{i}]" and n_rows == want[
+                              "n_different_items"])
         okc = okc or (t in (f"{objn}[:]", f"{objn}[:,:]")
-                      and src(c.value) == p[4])
+                      and src(c.value) == mat)
     if not okc:
         problems.append("the rows of the matrix are not copied into the "
                         "instance")
     # item counting: n_items = sum of the multiplicities
-    loop = next((s for s in body if isinstance(s, ast.For) and any(
-        isinstance(x, ast.AugAssign) and src(x.target) == "item_area"
-        for x in ast.walk(s))), None)
-    okn = False
-    if loop is not None:
-        unpack = next((b for b in loop.body if isinstance(b, ast.Assign)
-                       and isinstance(b.targets[0], ast.Tuple)), None)
-        rep = src(unpack.targets[0].elts[2]) if unpack is not None and len(
-            unpack.targets[0].elts) == 3 else None
-        okn = rep is not None and any(
-            isinstance(b, ast.AugAssign) and isinstance(b.op, ast.Add)
-            and src(b.target) == "n_items" and src(b.value) == rep
-            for b in loop.body) and any(
-            isinstance(b, (ast.Assign, ast.AnnAssign)) and src(
-                b.targets[0] if isinstance(b, ast.Assign) else b.target)
-            == "n_items" and repo.const(new.module, b.value) == 0
-            for b in body)
+    rep_col = repo.const(cm.im, ast.Name(id="IDX_REPETITION"))
+    okn, whyn = cm.accumulates(cm.count_var, rep_col if isinstance(
+        rep_col, int) else 2)
     if not okn:
-        problems.append("n_items is not the sum of the multiplicities")
+        problems.append("n_items is not the sum of the multiplicities"
+                        + (f" ({whyn})" if whyn else ""))
     # the DAMV bound is computed for this bin and these items
-    calls = [c for c in ast.walk(new.node) if isinstance(c, ast.Call)
-             and isinstance(c.func, ast.Name)
-             and c.func.id == "_lower_bound_damv"]
-    if len(calls) != 1 or [src(a) for a in calls[0].args] != [
-            p[2], p[3], objn]:
+    geo, damv = cm.bound_parts(cm.post_symbol(cm.area_var))
+    if damv is None or not cm.is_damv(damv):
         problems.append("_lower_bound_damv is not called as (bin_width, "
                         "bin_height, <the instance>)")
     ctx.ob("D3.3", new, new.node, not problems,
